@@ -576,7 +576,7 @@ namespace
     value select_array_scalar(runtime& runtime, value::cref left, value::cref right)
     {
         auto arr = left.data<d_array>()->value();
-        auto index = static_cast<int>(std::round(right.data<d_scalar, float>()));
+        auto index = d_scalar::to_int(std::round(right.data<d_scalar, float>()));
 
         if (static_cast<int>(arr.size()) < index || index < 0)
         {
@@ -629,7 +629,7 @@ namespace
             runtime.__logmsg(err::ExpectedArrayTypeMissmatch(runtime.context_active().current_frame().diag_info_from_position(), 1, t_scalar(), arr[0].type()));
             return {};
         }
-        int start = static_cast<int>(std::round(arr[0].data<d_scalar, float>()));
+        int start = d_scalar::to_int(std::round(arr[0].data<d_scalar, float>()));
         if (start < 0)
         {
             runtime.__logmsg(err::NegativeIndexWeak(runtime.context_active().current_frame().diag_info_from_position()));
@@ -649,7 +649,7 @@ namespace
                 runtime.__logmsg(err::ExpectedArrayTypeMissmatch(runtime.context_active().current_frame().diag_info_from_position(), 1, t_scalar(), arr[1].type()));
                 return {};
             }
-            int length = static_cast<int>(std::round(arr[1].data<d_scalar, float>()));
+            int length = d_scalar::to_int(std::round(arr[1].data<d_scalar, float>()));
             if (length < 0)
             {
                 runtime.__logmsg(err::NegativeIndexWeak(runtime.context_active().current_frame().diag_info_from_position()));
@@ -823,8 +823,8 @@ namespace
         {
             return {};
         }
-        auto from = (int)std::roundf((*right.data<d_array>())[0].data<d_scalar, float>());
-        auto to = (int)std::roundf((*right.data<d_array>())[1].data<d_scalar, float>());
+        auto from = d_scalar::to_int(std::roundf((*right.data<d_array>())[0].data<d_scalar, float>()));
+        auto to = d_scalar::to_int(std::roundf((*right.data<d_array>())[1].data<d_scalar, float>()));
 
         auto arr = left.data<d_array>();
         if (from > to)
@@ -1251,7 +1251,7 @@ namespace
         auto oldsize = arr->size();
         if (static_cast<int>(arr->size()) <= index)
         {
-            arr->resize(index + 1);
+            arr->resize(static_cast<size_t>(index) + 1);
         }
         auto oldval = (*arr)[index];
         (*arr)[index] = val;
